@@ -1,5 +1,7 @@
 """./check selftest -- demonstrates that the specification is bound to the code (DESIGN §5).
 
+ (c) runs of two real stacks are accepted by SD2Trace as recorded and rejected when one instant is corrupted.
+
  (a) traces recorded from the current tree are accepted by SDTrace (conformance); each of them, corrupted in one
      place (an output dropped / duplicated / altered / moved one tick), must be rejected;
      corruptions that touch a property must make its monitor fail.
@@ -209,6 +211,60 @@ def part_b(say, n):
     return ok, summary
 
 
+def part_c(say, n):
+    """two-stack runs against SD2.tla: accepted as recorded, rejected when one instant is corrupted"""
+    import copy
+    import random
+    from . import conform
+    from .props import c04
+    traces = [t for t in c04.traces_for("selftest", 3 * n, 4) if t["config"] in ("fin", "fin1")][:n]
+    for t in traces:
+        t["ticks"] = conform.ticks_of([e for e in t["ev"] if e.get("k") != "adv"])
+    ok = True
+    summary = {}
+    for name in ("fin", "fin1"):
+        sel = [t for t in traces if t["config"] == name]
+        consts = {"Match": "C04_Match", "Cfg": "C04_" + name, "Sw": "AllOff"}
+        res, _ = conform.run2(consts, sel)
+        good = [t for t, r in zip(sel, res) if r[0]]
+        say("(c) %-4s: %d/%d two-stack runs accepted by SD2Trace" % (name, len(good), len(sel)))
+        ok = ok and len(good) == len(sel)
+        row = {"recorded": len(sel), "accepted": len(good)}
+        for kind in ("drop_output", "duplicate_output", "alter_ttl", "move_to_next_instant"):
+            rng = random.Random("corrupt2/%s/%s" % (name, kind))
+            bad = []
+            for t in good:
+                tk = copy.deepcopy(t["ticks"])
+                # (not the last instant: a trace cut short is a prefix of a behaviour and rightly accepted)
+                cand = [i for i, x in enumerate(tk[:-1]) if x["outs"]]
+                if not cand:
+                    continue
+                i = rng.choice(cand)
+                j = rng.randrange(len(tk[i]["outs"]))
+                o = tk[i]["outs"][j]
+                if kind == "drop_output":
+                    del tk[i]["outs"][j]
+                elif kind == "duplicate_output":
+                    tk[i]["outs"].append(copy.deepcopy(o))
+                elif kind == "alter_ttl":
+                    w = [x for x in tk[i]["outs"] if x[0] == "wire" and x[3]]
+                    if not w:
+                        continue
+                    w[0][3][0][1] = w[0][3][0][1] + 1
+                else:
+                    if i + 1 >= len(tk):
+                        continue
+                    tk[i + 1]["outs"].append(tk[i]["outs"].pop(j))
+                bad.append({"ticks": [x for x in tk if x["outs"] or x["faults"]]})
+            r2, _ = conform.run2(consts, bad)
+            rej = sum(1 for r in r2 if not r[0])
+            row[kind] = {"corrupted": len(bad), "rejected": rej}
+            say("(c) %-4s: %-22s %3d corrupted runs, %3d rejected" % (name, kind, len(bad), rej))
+            ok = ok and rej == len(bad)
+        summary[name] = row
+    return ok, summary
+
+
 def main(argv):
     if len(argv) >= 2 and argv[0] == "--record":
         rec = record(1, int(argv[2]) if len(argv) > 2 else 40)
@@ -222,6 +278,9 @@ def main(argv):
         lines.append(s)
     ok_a, sa = part_a(say, n)
     ok_b, sb = part_b(say, n)
+    ok_c, sc = part_c(say, n)
+    ok_b = ok_b and ok_c
+    sb = {"pinned": sb, "two_stack": sc}
     here = os.path.dirname(os.path.dirname(os.path.abspath(__file__)))
     os.makedirs(os.path.join(here, "out"), exist_ok=True)
     json.dump({"a": sa, "b": sb, "ok": ok_a and ok_b}, open(os.path.join(here, "out", "selftest.json"), "w"), indent=1)
